@@ -388,6 +388,28 @@ func checkC08(c *Ctx, r *Report) {
 		r.Check(same, "C08.R3", "sibling responders agree on SetHeaders", "-", strings.Join(fl, ", "), "the responders disagree: "+strings.Join(fl, ", ")+" (plain and tunnelled answers differ)")
 	}
 
+	// ---- R9: the names an origin lists in its Connection header are hop-by-hop and must not be forwarded. They can only
+	// be honoured if the proxy still sees that header: net/http's transport deletes the whole Connection field of a
+	// response when it contains "close" (and then closes the connection), so `Connection: close, X-Foo` reaches
+	// removeHopByHopHeaders without any trace of X-Foo.
+	for _, f := range c.FuncsNamed(proxyPkg + ".sendRequestToTarget") {
+		eachCall(f, func(call ssa.CallInstruction, n string) {
+			if n != proxyPkg+".removeHopByHopHeaders" {
+				return
+			}
+			root, pth := fieldPath(callArgs(call.(*ssa.Call))[0])
+			ex, isEx := resolveVal(root).(*ssa.Extract)
+			if !isEx || len(pth) == 0 || pth[len(pth)-1] != "Header" {
+				return
+			}
+			do, isDo := ex.Tuple.(*ssa.Call)
+			if !isDo || calleeName(do) != "(*net/http.Client).Do" {
+				return
+			}
+			r.Fail("C08.R9", "reservoir/proxy.sendRequestToTarget: the origin's Connection tokens are still visible when hop-by-hop headers are removed from the response", c.InstrPos(call), "the response comes from net/http's client, whose transport has already deleted a Connection field that contains \"close\": a header the origin nominated next to it (`Connection: close, X-Secret-Hop`) is not recognised as hop-by-hop, is forwarded to the client and stored with the response")
+		})
+	}
+
 	// ---- R7: the plain responder adds no header of its own. net/http sniffs a Content-Type from the first bytes when
 	// the header map has none; the tunnel responder does not. A response whose origin sent no Content-Type is
 	// delivered without one on both transports: the plain responder pins the absent field (map entry set to nil).
